@@ -372,6 +372,10 @@ func main() {
 		c15Main(r)
 		return
 	}
+	if *prop == "C09" {
+		c09Main(r)
+		return
+	}
 	if *prop == "C10" {
 		if *debugHist != "" {
 			c := c10cfg{bTrustsA: false, seed: "none"}
